@@ -292,6 +292,49 @@ class VC(object):
             self.ctx.solver.pop()
             del self.ctx.pc[pc_len:]
 
+    def ensure_sum_nested(self, name, value, ranges, term, hyps=None, hyps2=None):
+        """value == Sigma_{i<n1} Sigma_{a<n2} term(i, a): by two levels of extensionality (sum congruence): the outer range,
+        then at a fresh i the summand is itself one library sum over the inner range with summands term(i, a)"""
+        n1, n2 = ranges
+        found = self.find_sums(value)
+        if len(found) != 1:
+            value = self.resolve(z3.simplify(value))
+            found = self.find_sums(value)
+        if len(found) != 1:
+            self.ensure(name + " [value is one sum, found %d]" % len(found), z3.BoolVal(False))
+            return
+        T = found[0]
+        ps, term_o, n_o = self.ctx.sums[str(T.decl())]
+        self.ensure(name + " [outer: nothing but the sum]", value == T)
+        self.ensure(name + " [outer range]", z3.And(to_num(n_o) == to_num(n1), T.arg(0) == to_num(n1)))
+        i = z3.Int(self.ctx._name('ki'))
+        self.ctx.solver.push()
+        pc_len = len(self.ctx.pc)
+        try:
+            self.ctx.assume(z3.And(i >= 0, i < to_num(n1)))
+            if hyps:
+                hyps(i)
+            inner = term_o(i)
+            f2 = self.find_sums(inner)
+            if len(f2) != 1:
+                inner = self.resolve(z3.simplify(inner))
+                f2 = self.find_sums(inner)
+            if len(f2) != 1:
+                self.ctx.oblige(name + " [inner: the outer summand is one sum, found %d]" % len(f2), z3.BoolVal(False))
+                return
+            T2 = f2[0]
+            ps2, term_i, n_i = self.ctx.sums[str(T2.decl())]
+            self.ctx.oblige(name + " [inner: nothing but the sum]", inner == T2)
+            self.ctx.oblige(name + " [inner range]", z3.And(to_num(n_i) == to_num(n2), T2.arg(0) == to_num(n2)))
+            a = z3.Int(self.ctx._name('ka'))
+            self.ctx.assume(z3.And(a >= 0, a < to_num(n2)))
+            if hyps2:
+                hyps2(i, a)
+            self.ctx.oblige(name + " [summand]", term_i(a) == term(i, a))
+        finally:
+            self.ctx.solver.pop()
+            del self.ctx.pc[pc_len:]
+
     def new_object(self, cls_spec, **fields):
         cls = self.cls(cls_spec) if isinstance(cls_spec, str) else cls_spec
         return ObjVal(cls, dict(fields))
@@ -402,6 +445,12 @@ def run_contract(c, root='/repo/src', verbose=False):
                 traceback.print_exc()
         except RecursionError:
             res.undecided.append("recursion limit in the interpreter")
+        except (KeyError, AttributeError, IndexError, TypeError, ValueError) as e:
+            # the sidecar contract refers to a local, a loop ordinal or a value shape that the current code no longer has
+            # (restructured function): the proof is lost, which is not a verdict about the property (DESIGN 2.7 ladder)
+            res.undecided.append("contract no longer binds to the code (%s: %s) near line %s" % (type(e).__name__, str(e)[:120], getattr(it, 'cur_line', '?')))
+            if verbose:
+                traceback.print_exc()
         worklist.extend(ctx.pending)
         for o in ctx.obligations:
             cl = res.clauses.setdefault(o.name, {'status': 'proved', 'instances': 0, 'time': 0.0, 'model': None,
